@@ -54,7 +54,9 @@ Definition iobs_eqb (with_static : bool) (i : iobs) (b : obs) : bool :=
   | IErr, BErr => true
   | IOk [] [] [], BNone => true
   | IOk cs rs st, BOk fr s =>
-      strs_eqb cs (cols fr) && bag_eqb rs (rows fr) && (negb with_static || strs_eqb st s)
+      (* without rows the harness can only report df.columns, which is compared as the static list *)
+      (match rs with [] => with_static | _ => false end || strs_eqb cs (cols fr))
+      && bag_eqb rs (rows fr) && (negb with_static || strs_eqb st s)
   | _, _ => false
   end.
 
@@ -85,7 +87,7 @@ Definition step_dom (tables : list (string * frame)) (st : state) (s : step) : b
           forallb (fun n => is_some (assoc n (q_ctes q0)) || is_some (cache_cols (s_cache st) n)) (refs q0))
       && match qualify (s_cache st) (lower_query q) with
          | Some q1 => sql_side_ok st q1 && negb (has_star (static_cols (q_main q1)))
-         | None => true
+         | None => false
          end
   | SJoinB h1 h2 _ _ =>
       match heap_get (s_heap st) h1, heap_get (s_heap st) h2 with
@@ -97,12 +99,30 @@ Definition step_dom (tables : list (string * frame)) (st : state) (s : step) : b
   | _ => true
   end.
 
+(** sqlglot replaces every Table node *equal* (name and alias) to a spliced reference, also inside the
+    added view CTEs; the model ignores aliases there.  A step is alias-exact when no added CTE body
+    mentions a spliced view name, so that the difference cannot matter. *)
+Definition alias_exact (st : state) (s : step) : bool :=
+  match s with
+  | SSql q =>
+      match qualify (s_cache st) (lower_query q) with
+      | Some q1 =>
+          let vs := view_refs q1 (s_views st) in
+          forallb (fun v => match assoc v (s_views st) with
+                            | Some d => forallb (fun c => forallb (fun m => negb (mem m vs)) (names_sq (snd c))) (d_chain d)
+                            | None => true end) vs
+      | None => true
+      end
+  | _ => true
+  end.
+
 Definition b2s (b : bool) : string := if b then "1" else "0".
 
 Section Check.
   Variable c : cfg.
 
-  (** per step five characters: impl=model | impl=spec | model=spec | in-domain (this and all earlier steps) | oracle=spec *)
+  (** per step six characters: impl=model | impl=spec | model=spec | in-domain (this and all earlier steps)
+      | oracle=spec | model is alias-exact *)
   Fixpoint go (tables : list (string * frame)) (st : state) (sp : sstate) (dom : bool)
               (steps : list step) (impl oracle : list iobs) : string :=
     match steps with
@@ -119,7 +139,7 @@ Section Check.
           (String.append (b2s (iobs_eqb true i m))
             (String.append (b2s (iobs_eqb true i p))
               (String.append (b2s (obs_eqb m p))
-                (String.append (b2s dom') (b2s (iobs_eqb false e p))))))
+                (String.append (b2s dom') (String.append (b2s (iobs_eqb false e p)) (b2s (alias_exact st s)))))))
           (go tables st' sp' dom' rest (tl impl) (tl oracle))
     end.
 
